@@ -24,6 +24,16 @@ using namespace rkcommon::math;
   extern "C" void R_sub_vv_##ID(const T *a, const T *b, T *out) { EL##S(a[i] - b[i]) }                     \
   extern "C" void L_mul_vv_##ID(const T *a, const T *b, T *out) { auto r = V(a) * V(b); ST##S(r) }         \
   extern "C" void R_mul_vv_##ID(const T *a, const T *b, T *out) { EL##S(a[i] * b[i]) }                     \
+  extern "C" void L_div_vv_##ID(const T *a, const T *b, T *out) { auto r = V(a) / V(b); ST##S(r) }         \
+  extern "C" void R_div_vv_##ID(const T *a, const T *b, T *out) { EL##S(a[i] / b[i]) }                     \
+  extern "C" void L_div_vs_##ID(const T *a, T s, T *out) { auto r = V(a) / s; ST##S(r) }                   \
+  extern "C" void R_div_vs_##ID(const T *a, T s, T *out) { EL##S(a[i] / s) }                               \
+  extern "C" void L_div_sv_##ID(const T *a, T s, T *out) { auto r = s / V(a); ST##S(r) }                   \
+  extern "C" void R_div_sv_##ID(const T *a, T s, T *out) { EL##S(s / a[i]) }                               \
+  extern "C" void L_diveq_vs_##ID(const T *a, T s, T *out) { V r(a); r /= s; ST##S(r) }                    \
+  extern "C" void R_diveq_vs_##ID(const T *a, T s, T *out) { EL##S(a[i] / s) }                             \
+  extern "C" void L_diveq_vv_##ID(const T *a, const T *b, T *out) { V r(a); r /= V(b); ST##S(r) }          \
+  extern "C" void R_diveq_vv_##ID(const T *a, const T *b, T *out) { EL##S(a[i] / b[i]) }                   \
   extern "C" void L_sub_vs_##ID(const T *a, T s, T *out) { auto r = V(a) - s; ST##S(r) }                   \
   extern "C" void R_sub_vs_##ID(const T *a, T s, T *out) { EL##S(a[i] - s) }                               \
   extern "C" void L_sub_sv_##ID(const T *a, T s, T *out) { auto r = s - V(a); ST##S(r) }                   \
@@ -153,11 +163,9 @@ TYPE(double, d)
 // integer remainder / division keep the operand order (compared as udiv/sdiv atoms)
 extern "C" void L_mod_vv_i3(const int *a, const int *b, int *out) { auto r = vec3i(a) % vec3i(b); ST3(r) }
 extern "C" void R_mod_vv_i3(const int *a, const int *b, int *out) { EL3(a[i] % b[i]) }
-extern "C" void L_div_sv_i4(const int *a, int s, int *out) { auto r = s / vec4i(a); ST4(r) }
-extern "C" void R_div_sv_i4(const int *a, int s, int *out) { EL4(s / a[i]) }
-extern "C" void L_div_vv_f3a(const float *a, const float *b, float *out) { auto r = vec3fa(a) / vec3fa(b); ST3(r) }
-extern "C" void R_div_vv_f3a(const float *a, const float *b, float *out) { EL3(a[i] / b[i]) }
 // mixed element types, conversions, composite constructors
+extern "C" void L_mixed_div_vs_f3_i(const float *a, int s, float *out) { auto r = vec3f(a) / s; ST3(r) }
+extern "C" void R_mixed_div_vs_f3_i(const float *a, int s, float *out) { EL3(a[i] / float(s)) }
 extern "C" void L_mixed_sub_i3f3(const int *a, const float *b, float *out) { auto r = vec3i(a) - vec3f(b); ST3(r) }
 extern "C" void R_mixed_sub_i3f3(const int *a, const float *b, float *out) { EL3(float(a[i]) - b[i]) }
 extern "C" void L_mixed_sv_f_i4(const int *a, float s, float *out) { auto r = s - vec4i(a); ST4(r) }
